@@ -55,6 +55,11 @@ type l4Case struct {
 	Dests      string   `json:"dests"` // valid | invalid | none | outcome+valid | niloutcome+valid | outcome | outcome+invalid
 	Calls      []string `json:"calls"` // iter: next get getoutcome getniloutcome getinvalid close
 	CancelAt   int      `json:"cancelAt"` // iter: cancel the context before this call index (-1 never)
+	// PreCtx: a preliminary Run() of the same Statement on the same DB/TX before the
+	// operation proper: "" none, "live", "cancelled" (its context is already cancelled)
+	PreCtx string `json:"preCtx"`
+	// ExtraSets: the driver answers the query with further (empty) result sets
+	ExtraSets int `json:"extraSets"`
 }
 
 func genL4(r *rng.R) *l4Case {
@@ -85,6 +90,12 @@ func genL4(r *rng.R) *l4Case {
 		}
 	}
 	c.Op = r.Pick([]string{"get", "get", "getall", "run", "iter", "iter"})
+	if r.Chance(1, 4) && !(strings.HasPrefix(c.Path, "tx") && c.TxEnd == "before-query") {
+		c.PreCtx = r.Pick([]string{"live", "cancelled", "cancelled"})
+	}
+	if c.HasOutputs && c.Op != "iter" && r.Chance(1, 5) {
+		c.ExtraSets = 1 + r.Intn(2)
+	}
 	switch c.Op {
 	case "get":
 		c.Dests = r.Pick([]string{"valid", "valid", "valid", "invalid", "none", "outcome+valid", "niloutcome+valid", "outcome", "outcome+invalid"})
@@ -166,6 +177,8 @@ type l4Obs struct {
 	Outcome   string          `json:"outcome"` // "" none, "nil", "r:<rows affected>"
 	Finish    []string        `json:"finish"`
 	Winners   int             `json:"winners"`
+	PreReturn string          `json:"preReturn"`
+	BeginConn int             `json:"beginConn"`
 	Panic     string          `json:"panic,omitempty"`
 	Extra     map[string]any  `json:"extra,omitempty"`
 }
@@ -227,8 +240,7 @@ func runL4Case(c *l4Case) (obs *l4Obs) {
 	if c.CloseErr {
 		sc.Faults = append(sc.Faults, fakedrv.Fault{Kind: "rowsclose", N: 0, Err: inj(4)})
 	}
-	st.SetScript(sc)
-	st.Reset()
+	sc.ExtraResultSets = c.ExtraSets
 
 	var ctx context.Context
 	var cancel context.CancelFunc = func() {}
@@ -249,11 +261,17 @@ func runL4Case(c *l4Case) (obs *l4Obs) {
 	defer cancel()
 
 	var tx *sqlair.TX
+	st.Reset()
 	if onTx {
 		tx, err = db.Begin(context.Background(), nil)
 		if err != nil {
 			obs.Panic = "begin failed: " + err.Error()
 			return obs
+		}
+		for _, e := range st.Events() {
+			if e.Kind == "begin" {
+				obs.BeginConn = e.Conn
+			}
 		}
 	}
 	finish := func() {
@@ -292,6 +310,25 @@ func runL4Case(c *l4Case) (obs *l4Obs) {
 			obs.Finish = append(obs.Finish, errText(e))
 		}
 	}
+	if c.PreCtx != "" {
+		// preliminary run with a clean script; its events are not part of the case's log
+		st.SetScript(fakedrv.Script{Columns: []string{"_sqlair_0", "_sqlair_1"}})
+		pctx, pcancel := context.WithCancel(context.Background())
+		if c.PreCtx == "cancelled" {
+			pcancel()
+		}
+		var perr error
+		if onTx {
+			perr = tx.Query(pctx, stmt).Run()
+		} else {
+			perr = db.Query(pctx, stmt).Run()
+		}
+		pcancel()
+		obs.PreReturn = errText(perr)
+	}
+	st.SetScript(sc)
+	// keep only what happens from here on (the TX begin is re-inserted when the log is read)
+	st.Reset()
 	if onTx && c.TxEnd == "before-query" {
 		finish()
 	}
@@ -405,6 +442,10 @@ func runL4Case(c *l4Case) (obs *l4Obs) {
 	}
 	if onTx && c.TxEnd == "after" {
 		finish()
+	}
+	if onTx {
+		obs.Events = append(obs.Events, "begin")
+		obs.EventConn = append(obs.EventConn, obs.BeginConn)
 	}
 	for _, e := range st.Events() {
 		if k, ok := modelledEvents[e.Kind]; ok {
